@@ -136,8 +136,18 @@ func c16multi(c *h.Ctx, r *h.Rand) {
 		{jose.RSA1_5, &ks.rsa[1].PublicKey, ks.rsa[1], "RSA1_5/r1"},
 		{jose.ECDH_ES_A128KW, &ec.PublicKey, ec, "ECDH-ES+A128KW"},
 		{jose.A256GCMKW, ks.syms[32][0], ks.syms[32][0], "A256GCMKW"},
+		{jose.RSA1_5, &ks.rsa[0].PublicKey, ks.rsa[0], "RSA1_5/r0"},
+		{jose.RSA_OAEP_256, &ks.rsa[1].PublicKey, ks.rsa[1], "RSA-OAEP-256/r1"},
 	}
-	for ci, combo := range [][]int{{0, 1}, {2, 4}, {0, 2, 4}, {3, 5, 1}, {5, 0}} {
+	// fixed combinations first (every family next to every other, RSA entries for DIFFERENT keys in both orders: an
+	// RSA1_5 key decryption "succeeds" with garbage for a foreign key, the recipient behind it must still get in),
+	// then random selections in random order
+	rcombos := [][]int{{0, 1}, {2, 4}, {0, 2, 4}, {3, 5, 1}, {5, 0}, {3, 2}, {2, 3}, {6, 7}, {7, 6}, {3, 6}, {6, 3, 2}, {3, 1, 6, 4}}
+	for k := c.N(3, 40); k > 0; k-- {
+		perm := r.Perm(len(rpool))
+		rcombos = append(rcombos, perm[:2+r.Intn(3)])
+	}
+	for ci, combo := range rcombos {
 		for _, encAlg := range []jose.ContentEncryption{jose.A128GCM, jose.A128CBC_HS256, jose.A256CBC_HS512} {
 			if !c.Thorough() && (ci+len(encAlg))%2 == 1 {
 				continue
